@@ -88,17 +88,18 @@ Definition shl_one (t : term) : option term :=
 Definition s_mul (a b : term) : term :=
   if is_c a 0 then TConst 0
   else if is_c a 1 then b
-  else match pow2_exp a with
-  | Some k => TOp2 SHL (TConst k) b                (* 2^k * X = X << k *)
-  | None =>
-  match shl_one b with
+  else match shl_one b with
        | Some y => TOp2 SHL y a                    (* MUL(X,SHL(Y,1)) *)
        | None =>
          match shl_one a with
          | Some y => TOp2 SHL y b
-         | None => TOp2 MUL a b
+         | None =>
+           match pow2_exp a with
+           | Some k => TOp2 SHL (TConst k) b       (* 2^k * X = X << k *)
+           | None => TOp2 MUL a b
+           end
          end
-       end end.
+       end.
 
 Definition s_sub (a b : term) : term :=
   if is_c b 0 then a else if term_eqb a b then TConst 0 else TOp2 SUB a b.
@@ -364,11 +365,26 @@ Fixpoint drop_same_s (k : term) (s : term) : term :=
   | _ => s
   end.
 
+(* canonical order of provably disjoint stores: the store at the smaller offset (same base) goes inside *)
+Definition addr_lt (a a' : term) : bool :=
+  let (b1, c1) := split_addr a in
+  let (b2, c2) := split_addr a' in
+  same_base b1 b2 && (c1 <? c2).
+
+Fixpoint ins_store (w : bool) (a v m : term) : term :=
+  let n := if w then 32 else 1 in
+  let top := if w then MStore m a v else MStore8 m a v in
+  match m with
+  | MStore m' a' v' => if disj n a 32 a' && addr_lt a a' then MStore (ins_store w a v m') a' v' else top
+  | MStore8 m' a' v' => if disj n a 1 a' && addr_lt a a' then MStore8 (ins_store w a v m') a' v' else top
+  | _ => top
+  end.
+
 (* a store that writes back what is already there is dropped *)
 Definition s_mstore (m a v : term) : term :=
   match v with
-  | TMload m' a' => if term_eqb a a' && term_eqb m' (relevant 32 a m) then m else MStore (drop_same a m) a v
-  | _ => MStore (drop_same a m) a v
+  | TMload m' a' => if term_eqb a a' && term_eqb m' (relevant 32 a m) then m else ins_store true a v (drop_same a m)
+  | _ => ins_store true a v (drop_same a m)
   end.
 Definition s_sstore (s k v : term) : term :=
   match v with
@@ -387,7 +403,7 @@ Fixpoint norm (t : term) : term :=
   | TSload s k => s_sload (norm s) (norm k)
   | TKeccak m a n => s_keccak (norm m) (norm a) (norm n)
   | MStore m a v => s_mstore (norm m) (norm a) (norm v)
-  | MStore8 m a v => MStore8 (norm m) (norm a) (norm v)
+  | MStore8 m a v => ins_store false (norm a) (norm v) (norm m)
   | SStore s k v => s_sstore (norm s) (norm k) (norm v)
   end.
 
